@@ -138,6 +138,11 @@ func init() {
 type c07Probe struct {
 	dayPesum, dayAufna, dayNfix float64
 	cropDay                     bool
+	// before the N routine of the first sub-step: crop N content, cumulative uptake, rotation position; fixation the
+	// crop model computed today
+	bnPesum, bnAufna, fixToday float64
+	bnAkf                      int
+	bnSeen                     bool
 	c     *mc.Ctx
 	label string
 	bare  bool
@@ -180,9 +185,28 @@ func (l *c07Probe) probe() *hermes.VerifProbe {
 		},
 		AfterEvatra: func(g *hermes.GlobalVarsMain, zeit int, w *hermes.WaterSharedVars) {
 			l.pesum, l.aufna, l.nfixsum = g.PESUM, g.AUFNASUM, g.NFIXSUM
+			l.bnSeen = false
+		},
+		BeforeNitro: func(g *hermes.GlobalVarsMain, zeit, subd int) {
+			if subd == 1 {
+				l.bnSeen, l.bnPesum, l.bnAufna, l.bnAkf = true, g.PESUM, g.AUFNASUM, g.AKF.Index
+				l.fixToday = g.NFIXSUM - l.nfixsum // (the crop model runs between the ET routine and here)
+			}
 		},
 		SubStep: func(g *hermes.GlobalVarsMain, zeit, subd int, steps, wdt float64, w *hermes.WaterSharedVars, n *hermes.NitroSharedVars) {
 			l.c.Eval(1)
+			if subd == 1 && l.bnSeen && !l.harvestDay && g.AKF.Index == l.bnAkf && (l.fixToday != 0 || g.PESUM != l.bnPesum) {
+				// what the crop model fixed today is added to the crop's N content in the N routine of the first
+				// sub-step, once: there the content grows by the uptake booked plus exactly that amount (days on which
+				// the N routine harvests or cuts the crop are not judged)
+				credit := (g.PESUM - l.bnPesum) - (g.AUFNASUM - l.bnAufna)
+				if math.Abs(credit-l.fixToday) > relTol(g.PESUM, l.fixToday) {
+					l.c.Violate("fixation of the day not credited exactly once", fmt.Sprintf("%s day %d: the crop model fixed %.10g kg N/ha today; the N routine of the first sub-step added %.10g kg N/ha to the crop beyond the booked uptake", l.label, zeit, l.fixToday, credit), nil)
+				}
+				if l.fixToday > 0 {
+					l.nontriv = true
+				}
+			}
 			if subd > 1 {
 				// crop N uptake and fixation are credited exactly once per day
 				if g.PESUM != l.pesum {
